@@ -387,7 +387,9 @@ class TimedToSequential(engines.engine.Engine, CompilerMixin):
             pdict = OrderedDict()
             for p in action.parameters:
                 pdict[p.name] = p.type
-            new_action = InstantaneousAction(action.name, pdict)
+            new_action = InstantaneousAction(
+                action.name, pdict, problem.environment
+            )
             assert isinstance(action, DurativeAction)
 
             (
